@@ -175,6 +175,7 @@ impl<'tcx> HirX<'tcx> {
             ByteStr(b, _) => {
                 o.push(("lk".into(), J::Str("bytestr".into())));
                 o.push(("v".into(), J::Str(String::from_utf8_lossy(b.as_byte_str()).to_string())));
+                o.push(("bytes".into(), J::Arr(b.as_byte_str().iter().map(|x| J::Num(*x as i128)).collect())));
             }
             Byte(b) => {
                 o.push(("lk".into(), J::Str("byte".into())));
